@@ -749,5 +749,6 @@ func runC09(cx *ctx) {
 		cx.ru.Do(func() *h.Case {
 			return pidCase("cross-native-to-plugin", asciiUpper(b32Build("age-secret-key-", to5(rr.Bytes(32)), false)), true, "native identity given to plugin.ParseIdentity")
 		})
-	}
+	}	// deterministic sweeps and hand-built strings (c09_extra.go)
+	c09Extra(cx)
 }
